@@ -37,6 +37,9 @@ def rand_table(rng, n):
                     items.append('n')
                 elif q < 0.5:
                     items.append(['z', rng.randrange(len(pipelib.ZOO))])
+                elif q < 0.62:
+                    uid += 1
+                    items.append(['g', uid])        # an item that is itself an iterator: one item, never looked into
                 else:
                     uid += 1
                     items.append(uid)
@@ -52,7 +55,7 @@ def gen_cases(ctx):
         table = rand_table(rng, n)
         total = sum(len(t[1]) if t[0] == 'it' else 1 for t in table)
         k = rng.randint(0, total + 1)
-        demand = ['N'] * k + rng.choice([['C'], ['N*'], ['N*']])
+        demand = ['N'] * k + rng.choice([['C'], ['G'], ['N*'], ['N*']])
         cases.append(dict(cfg=dict(nworkers=0, extracache=0, skipNone=rng.random() < 0.7, maxtasksperchild=None), n=n, tail=None,
                           table=table, fkind=rng.choice(['module', 'lambda', 'closure']), kwargs=rng.choice([{}, {'a': 1}]),
                           schedule=None, demand=demand, label='flatmap', second=False))
@@ -80,10 +83,8 @@ def judge(ctx, case, res, mout):
                 if it == 'n':
                     if not skip:
                         exp.append((i, j, 'n'))
-                elif isinstance(it, list):
-                    exp.append((i, j, 'v%d' % (pipelib.ZBASE + it[1])))
                 else:
-                    exp.append((i, j, 'v%d' % it))
+                    exp.append((i, j, 'v' + pipelib.item_token(it)))
         elif t[0] == 'n':
             if not skip:
                 exp.append((i, None, 'n'))
@@ -125,6 +126,20 @@ def judge(ctx, case, res, mout):
                 ctx.fail('flatmap-inner-not-lazy', 'at the hand-over of item %d of element %d, %d items of its generator had been pulled' % (
                     j, i, pulls.get(i, 0)), small)
                 return
+    # an abandoned stream (close / dropped and collected) asks for nothing any more: neither the source nor an inner
+    # iterator may be advanced from then on
+    stop_at = next((n for n, e in enumerate(ev) if e[0] in ('C', 'G')), None)
+    if stop_at is not None:
+        late = [e for e in ev[stop_at + 1:] if e[0] in ('L', 'D')]
+        if late:
+            ctx.fail('flatmap-advances-after-abandon', 'after the consumer abandoned the stream (%s) %s advanced %d more time(s)' % (
+                'close' if ev[stop_at][0] == 'C' else 'garbage collection',
+                'an inner iterator was' if late[0][0] == 'L' else 'the source was', len(late)), small)
+            return
+    # an iterator that is only an ITEM of a result belongs to the consumer: the stage must not advance it
+    if any(e[0] == 'W' for e in ev):
+        ctx.fail('flatmap-looks-into-item', 'an item that is itself an iterator was advanced by the stage instead of being handed over as one item', small)
+        return
     if any(t == 'K' for t, i, p in ev):
         ctx.fail('kwargs-not-forwarded', 'a per-element call received different keyword arguments', small)
     # correspondence after every demand
@@ -154,6 +169,10 @@ def check(ctx):
 
 
 def replay(ctx, data):
+    if 'streams' in data['case']:
+        from harness.props import multistream
+        multistream.replay(ctx, data['case'])
+        return
     for c, r, m in c01.execute([data['case']], workers=1):
         with ctx.guard(c):
             judge(ctx, c, r, m)
